@@ -107,7 +107,7 @@ func corpusFor(c *Ctx) []*corpus.Program {
 		progs = append(progs, corpus.F2(true)...)
 		progs = append(progs, corpus.F5(2, 1)...)
 		progs = append(progs, corpus.F6(2, 1)...)
-		progs = append(progs, corpus.F6(3, 1)...)
+		progs = append(progs, corpus.F6(3, 4)...)
 		progs = append(progs, corpus.F4(int64(c.Seed)+1, 300, 8)...)
 	} else {
 		progs = append(progs, corpus.F1(1, 1, true, false)...)
